@@ -4,7 +4,7 @@ import itertools
 import z3
 
 from pyvc.contract import Contract
-from pyvc.engine import LoopSpec, Obj, Builtin, PyRaise, BoundMethod, fresh, named, BOOL, INT, STR
+from pyvc.engine import LoopSpec, Obj, Sym, Builtin, PyRaise, BoundMethod, fresh, named, BOOL, INT, STR
 from pyvc import externals, stubs
 
 PROP = 'C18'
@@ -75,6 +75,11 @@ def lookup_setup(eng):
     def fetch(e, f, args, kwargs, node):
         import copy
         e.ghost['fetches'].append(args[1])
+        if args[1] == 'chr3':
+            # a contig the VCF does not have: the real fetchChromosome has already allocated its placeholder entry when
+            # pysam's fetch raises ValueError("invalid contig `chr3`")
+            f.bound.attrs['locationToAllele'] = {args[1]: {-1: {'N': {'Nop'}}}}
+            raise PyRaise('ValueError', 'invalid contig `chr3`')
         f.bound.attrs['locationToAllele'] = copy.deepcopy(LOADED) if args[1] == 'chr1' else {args[1]: {}}
     eng.loader.call_hooks[Q + 'fetchChromosome'] = fetch
 
@@ -83,8 +88,11 @@ get_alleles = Contract(
     PROP, FA + '::AlleleResolver.getAllelesAt', name='AlleleResolver.getAllelesAt',
     params={'self': lookup_self(False, True), 'chrom': ('const', 'chr1'), 'pos': 'int', 'base': 'str'},
     cases=[{}, {'self': lookup_self(True, False)}, {'self': lookup_self(True, True)},
-           {'self': lookup_self(True, False), 'chrom': ('const', 'chr2')}, {'chrom': ('const', 'chr2')}],
+           {'self': lookup_self(True, False), 'chrom': ('const', 'chr2')}, {'chrom': ('const', 'chr2')},
+           {'self': lookup_self(True, False), 'chrom': ('const', 'chr3')}, {'chrom': ('const', 'chr3')}],
     setup=lookup_setup,
+    # positions are 0-based reference coordinates; key -1 is fetchChromosome's own placeholder entry, not a site
+    requires=['pos >= 0'],
     ensures={
         # identical answers in eager and lazy mode: the lazy mode loads the contig on first access, then both read the table
         'answer_is_the_table_entry_A': 'implies(chrom == "chr1" and pos == 10 and base == "A", result == {"s1"})',
@@ -100,7 +108,59 @@ get_alleles = Contract(
 get_alleles.pre_state = lambda eng, fr: eng.spec_env.update(
     {'WAS_LOADED': fr.env['chrom'] in fr.env['self'].attrs['locationToAllele']})
 
-UNITS = [init, get_alleles]
+# has_location: the other observation point - the same table, the same lazy load, the same answer in every mode
+has_location = Contract(
+    PROP, FA + '::AlleleResolver.has_location', name='AlleleResolver.has_location',
+    params={'self': lookup_self(False, True), 'chrom': ('const', 'chr1'), 'pos': 'int'},
+    cases=[{}, {'self': lookup_self(True, False)}, {'self': lookup_self(True, True)},
+           {'self': lookup_self(True, False), 'chrom': ('const', 'chr2')}, {'chrom': ('const', 'chr2')},
+           {'self': lookup_self(True, False), 'chrom': ('const', 'chr3')}, {'chrom': ('const', 'chr3')}],
+    setup=lookup_setup,
+    requires=['pos >= 0'],
+    ensures={
+        'a_site_is_reported_iff_the_vcf_has_it_in_every_mode': 'result == (chrom == "chr1" and pos == 10)',
+        'lazy_mode_loads_the_contig_once_when_missing':
+            'GHOST["fetches"] == ([chrom] if (old(self).lazyLoad and not WAS_LOADED) else [])',
+    },
+    raises={},
+    assumptions=['fetchChromosome(contig) loads exactly the variants of that contig (its own contract, below); for a contig the '
+                 'VCF lacks it leaves its placeholder entry and raises ValueError("invalid contig ...") as pysam does (A4)'],
+)
+has_location.pre_state = get_alleles.pre_state
+
+
+def has_location_replay(inputs, clause):
+    """real AlleleResolver on the scratch VCF (contigs 1 and 2): has_location in eager, lazy and cache mode for a site of the
+    VCF, an absent position and a contig the VCF lacks, asked twice"""
+    import shutil
+    import tempfile
+    from pyvc.contract import import_real
+    AR = import_real(FA, 'AlleleResolver')
+    d = tempfile.mkdtemp(prefix='c18_')
+    try:
+        p = make_vcf(d)
+        probes = [('1', 19), ('1', 5), ('2', 4), ('3', 5), ('3', 5)]
+        want = [True, False, True, False, False]
+        obs, bad = {}, []
+        for mode, kw in (('eager', {}), ('lazy', {'lazyLoad': True}), ('cache', {'use_cache': True})):
+            try:
+                r = AR(p, **kw)
+                got = [r.has_location(c, x) for c, x in probes]
+            except Exception as e:      # noqa: BLE001
+                got = '%s: %s' % (type(e).__name__, e)
+            obs[mode] = got
+            if got != want:
+                bad.append(mode)
+        o = {'outcome': 'return', 'value': obs, 'probes': [list(x) for x in probes], 'vcf_says': want}
+        if bad:
+            return {'status': 'confirmed', 'observed': o, 'failed': [{'clause': clause, 'modes': bad}]}
+        return {'status': 'not-reproduced', 'observed': o}
+    finally:
+        shutil.rmtree(d, ignore_errors=True)
+
+
+has_location.replay = has_location_replay
+UNITS = [init, get_alleles, has_location]
 
 
 VCF_TEXT = """##fileformat=VCFv4.0
@@ -220,8 +280,15 @@ def record_case(none_pattern, select, ignore, phased=True):
 
                 def vc_getattr(s_, e2, attr, node=None):
                     return BoundMethod('items', lambda e3, a_, k_: [(s, Obj('SampleData', {'alleles': al})) for s, al in alleles])
-            return Obj('VariantRecord', {'chrom': e.spec_env['CHROM'], 'pos': e.spec_env['POS'], 'ref': ref,
-                                         'alts': (named(STR, 'alt0'),), 'alleles': (ref, named(STR, 'alt0')), 'samples': Samples()})
+            alt = named(STR, 'alt0')
+            e.assume(z3.And(z3.Length(ref.z) >= 1, z3.Length(alt.z) >= 1))      # A7
+            e.spec_env['ALT'] = alt
+            pos = e.spec_env['POS']
+            # pysam: rlen is the length of REF on the reference, start = pos - 1, stop = start + rlen (A4)
+            return Obj('VariantRecord', {'chrom': e.spec_env['CHROM'], 'pos': pos, 'ref': ref, 'alts': (alt,),
+                                         'alleles': (ref, alt), 'samples': Samples(),
+                                         'rlen': Sym(z3.Length(ref.z), INT), 'start': Sym(pos.z - 1, INT),
+                                         'stop': Sym(pos.z - 1 + z3.Length(ref.z), INT)})
 
         class VF:
             def vc_enter(self, e):
@@ -287,7 +354,35 @@ def record_unit(none_pattern, select, ignore, tag):
     )
 
 
-RECORD_UNITS = []
+# not phased: the site is keyed by allele rank (U = REF, V = first ALT) and kept iff REF and ALT are single bases and the
+# conversion is not ignored
+UNPHASED_POST = {
+    'site_kept_iff_single_nucleotide_ref_and_alt':
+        'iff(len(GHOST["stored"]) == 1, len(REF) == 1 and len(ALT) == 1 and not (IGNORE is not None and ((REF, REF) in IGNORE or (REF, ALT) in IGNORE)))',
+    'at_most_one_entry_per_record': 'len(GHOST["stored"]) <= 1',
+    'entry_is_at_the_record_position': 'all(e[0] == CHROM and e[1] == POS - 1 for e in GHOST["stored"])',
+    'ref_is_U_and_alt_is_V':
+        'all(any(k == REF and "U" in v for k, v in e[2].items()) and any(k == ALT and "V" in v for k, v in e[2].items()) and '
+        'all((k == REF or k == ALT) and all((t == "U" and k == REF) or (t == "V" and k == ALT) for t in v) for k, v in e[2].items()) '
+        'for e in GHOST["stored"])',
+}
+
+
+def unphased_unit(ignore, tag):
+    return Contract(
+        PROP, FA + '::AlleleResolver.fetchChromosome', name='fetchChromosome.record[not phased; %s]' % tag,
+        params={'self': fetch_self(None, ignore, False), 'vcffile': ('const', 'variants.vcf.gz'), 'chrom': 'str',
+                'clear': ('const', False)},
+        setup=record_case((0, 0, 0, 0), None, ignore),
+        loops={0: LoopSpec(inv={}, types={}, body_post=UNPHASED_POST)},
+        raises={},
+        bounded=None,
+        assumptions=['one REF and one ALT allele per record (symbolic strings); not phased; no cache',
+                     'pysam.VariantFile.fetch yields the records of the contig; rlen = len(REF) (A4)'],
+    )
+
+
+RECORD_UNITS = [unphased_unit(None, 'no ignore'), unphased_unit({('C', 'T')}, 'ignore C>T')]
 for pat, ptag in (((0, 0, 0, 0), 'all called'), ((1, 1, 0, 0), 's1 missing'), ((1, 0, 0, 0), 's1 half missing'),
                   ((0, 0, 1, 1), 's2 missing'), ((1, 1, 1, 1), 'all missing')):
     for sel, stag in ((None, 'all samples'), ({'s1', 's2'}, 'select s1,s2'), ({'s2'}, 'select s2')):
@@ -387,8 +482,52 @@ def record_replay(inputs, clause):
         shutil.rmtree(d, ignore_errors=True)
 
 
+def unphased_replay(inputs, clause):
+    """One-record VCF with the model's REF/ALT lengths (distinct nucleotide strings), real AlleleResolver(phased=False)."""
+    import shutil
+    import tempfile
+    import os
+    import pysam
+    from pyvc.contract import import_real
+    g = inputs.get('ghost', {})
+    ref, alt, ignore = g.get('REF') or 'A', g.get('ALT') or 'C', g.get('IGNORE')
+
+    def real(x, pool):
+        if len(x) == 1:
+            return x if x in 'ACGT' else pool
+        return ('ACGT' * 8)[1:1 + len(x)] if pool == 'C' else ('TGCA' * 8)[:len(x)]
+    REF, ALT = real(ref, 'C'), real(alt, 'T')
+    if REF == ALT and ref != alt:
+        ALT = 'G' if REF != 'G' else 'A'
+    ign = set(tuple(x) for x in ignore) if ignore else None
+    d = tempfile.mkdtemp(prefix='c18u_')
+    try:
+        p = os.path.join(d, 'v.vcf')
+        with open(p, 'w') as f:
+            f.write('##fileformat=VCFv4.0\n##contig=<ID=1,length=1000>\n'
+                    '##FORMAT=<ID=GT,Number=1,Type=String,Description="Genotype">\n'
+                    '#CHROM\tPOS\tID\tREF\tALT\tQUAL\tFILTER\tINFO\tFORMAT\ts1\ts2\n')
+            f.write('1\t100\t.\t%s\t%s\t42\tPASS\t.\tGT\t0/0\t0/1\n' % (REF, ALT))
+        path = pysam.tabix_index(p, preset='vcf', force=True)
+        r = import_real(FA, 'AlleleResolver')(vcffile=path, phased=False, ignore_conversions=ign)
+        stored = r.locationToAllele['1'].get(99) if 99 in r.locationToAllele['1'] else None
+        stored = {k: sorted(v) for k, v in stored.items()} if stored else None
+        keep = len(REF) == 1 and len(ALT) == 1 and not (ign and ((REF, REF) in ign or (REF, ALT) in ign))
+        expect = None
+        if keep:
+            expect = {}
+            expect.setdefault(REF, []).append('U')
+            expect.setdefault(ALT, []).append('V')
+        obs = {'outcome': 'return', 'value': {'vcf_record': [REF, ALT], 'stored': stored, 'expected': expect}}
+        if stored != expect:
+            return {'status': 'confirmed', 'observed': obs, 'failed': [{'clause': clause}]}
+        return {'status': 'not-reproduced', 'observed': obs}
+    finally:
+        shutil.rmtree(d, ignore_errors=True)
+
+
 for _u in RECORD_UNITS:
-    _u.replay = record_replay
+    _u.replay = unphased_replay if 'not phased' in _u.name else record_replay
 
 
 # ------------------------------------------------------------------------------ write_cache: atomic publication
@@ -581,3 +720,98 @@ return r.locationToAllele['chr1']
                  'whitespace (VCF sample names)'],
 )
 UNITS.append(cache_codec)
+
+
+# ------------------------------------------------------------------------------ the molecule-level consumer of the lookups (DA tag)
+# Molecule.calculate_allele_likelihoods reads the table through getAllelesAt; it must credit the sample that owns the base
+# and leave the resolver's table as it found it (a later lookup of the same site must give the same answer).
+FMOL = 'singlecellmultiomics/molecule/molecule.py'
+PROB = {('chr1', 10): None}
+
+
+def like_setup(eng):
+    import copy
+    lookup_setup(eng)
+    p, q = named(INT, 'likelihood_A'), named(INT, 'likelihood_G')
+    eng.assume(z3.And(p.z >= 1, q.z >= 1))
+    eng.spec_env.update({'PA': p, 'PG': q})
+    res = Obj('AlleleResolver', {'lazyLoad': False, 'vcffile': 'variants.vcf.gz', 'locationToAllele': copy.deepcopy(LOADED)},
+              info=eng.loader.classref(FA, 'AlleleResolver'))
+    eng.spec_env['RES'] = res
+    eng.spec_env['LOADED'] = copy.deepcopy(LOADED)
+
+
+def like_self(which):
+    def mk(eng, name):
+        probs = {'A only': {('chr1', 10): {'A': eng.spec_env['PA'], 'N': 1}},
+                 'A and G': {('chr1', 10): {'A': eng.spec_env['PA'], 'G': eng.spec_env['PG']}},
+                 'other base': {('chr1', 10): {'T': eng.spec_env['PA']}, ('chr1', 11): {'A': eng.spec_env['PG']}}}[which]
+        return Obj('Molecule', {'allele_resolver': eng.spec_env['RES'], 'allele_informative_base_probabilities': probs},
+                   info=eng.loader.classref(FMOL, 'Molecule'))
+    return mk
+
+
+def like_unit(which, credited):
+    return Contract(
+        PROP, FMOL + '::Molecule.calculate_allele_likelihoods', name='Molecule.calculate_allele_likelihoods[%s]' % which,
+        params={'self': like_self(which)}, setup=like_setup,
+        ensures={
+            'the_sample_owning_the_base_is_credited': credited,
+            'lookups_leave_the_table_unchanged': 'RES.locationToAllele == LOADED',
+            'a_second_lookup_gives_the_same_answer':
+                'RES.getAllelesAt("chr1", 10, "A") == {"s1"} and RES.getAllelesAt("chr1", 10, "G") == {"s2"}',
+        },
+        raises={},
+        bounded='one informative site of the table (chr1:10 A->s1, G->s2), symbolic likelihoods',
+        assumptions=['allele_informative_base_probabilities given (its own loop reads has_location, contract above)'],
+    )
+
+
+def like_replay(which):
+    def replay(inputs, clause):
+        """real Molecule.calculate_allele_likelihoods on an object carrying a real AlleleResolver table"""
+        import copy
+        from pyvc.contract import import_real
+        M, AR = import_real(FMOL, 'Molecule'), import_real(FA, 'AlleleResolver')
+        g = inputs.get('ghost') or {}
+        pa, pg = float(g.get('PA') or 1), float(g.get('PG') or 1)
+        r = object.__new__(AR)
+        r.lazyLoad, r.vcffile, r.locationToAllele = False, 'variants.vcf.gz', copy.deepcopy(LOADED)
+        m = object.__new__(M)
+        m.allele_resolver = r
+        m.__dict__['allele_informative_base_probabilities'] = {
+            'A only': {('chr1', 10): {'A': pa, 'N': 1}}, 'A and G': {('chr1', 10): {'A': pa, 'G': pg}},
+            'other base': {('chr1', 10): {'T': pa}, ('chr1', 11): {'A': pg}}}[which]
+        try:
+            m.calculate_allele_likelihoods()
+        except Exception as e:      # noqa: BLE001
+            return {'status': 'confirmed', 'observed': {'outcome': 'raise', 'exception': type(e).__name__, 'message': str(e)[:200]},
+                    'failed': [{'clause': clause}]}
+        want = {'A only': {'s1': pa}, 'A and G': {'s1': pa, 's2': pg}, 'other base': {}}[which]
+        got = dict(m.obtained_allele_likelihoods)
+        again = [r.getAllelesAt('chr1', 10, 'A'), r.getAllelesAt('chr1', 10, 'G')]
+        obs = {'outcome': 'return', 'value': {'likelihoods': got, 'expected': want,
+                                              'second_lookup': [sorted(x) if x is not None else None for x in again],
+                                              'table_after': {c: {p_: {b: sorted(v) for b, v in bs.items()} for p_, bs in ps.items()}
+                                                              for c, ps in r.locationToAllele.items()}}}
+        if got != want or r.locationToAllele != LOADED or again != [{'s1'}, {'s2'}]:
+            return {'status': 'confirmed', 'observed': obs, 'failed': [{'clause': clause}]}
+        return {'status': 'not-reproduced', 'observed': obs}
+    return replay
+
+
+_like_unit = like_unit
+
+
+def like_unit(which, credited):       # noqa: F811
+    u = _like_unit(which, credited)
+    u.replay = like_replay(which)
+    return u
+
+
+UNITS += [
+    like_unit('A only', 'len(self.obtained_allele_likelihoods) == 1 and self.obtained_allele_likelihoods["s1"] == PA'),
+    like_unit('A and G', 'len(self.obtained_allele_likelihoods) == 2 and self.obtained_allele_likelihoods["s1"] == PA and '
+              'self.obtained_allele_likelihoods["s2"] == PG'),
+    like_unit('other base', 'len(self.obtained_allele_likelihoods) == 0'),
+]
